@@ -52,7 +52,7 @@ def gen_segment_history(rng, n, strict=False, reject=False):
                 ['add_wrongclass'], ['set_wrongname', 'nk1_2' if seg != 'NK1' else 'pid_3', 'X'], ['add_otherlevel', name, val],
                 ['add_otherversion', name, val], ['del', '%s_%d' % (seg.lower(), 19)], ['set', 'foo_1', 'X'], ['set_elem_wrongname', name.lower()],
                 ['replace_otherlevel', name.lower(), val], ['add_overflow', '%s_1' % seg, '1'], ['set_invalid_strict', name.lower()],
-                ['datatype_populated', name.lower()], ['deli', name.lower(), 7], ['setparent_otherlevel', name, val], ['set_basedt_refused', name.lower()]]))
+                ['datatype_populated', name.lower()], ['deli', name.lower(), 7], ['setparent_otherlevel', name, val], ['set_basedt_refused', name.lower()], ['children_assign_refused', name, val]]))
     return {'root': 'segment', 'segment': seg, 'version': '2.5', 'strict': strict, 'ops': ops}
 
 
@@ -379,6 +379,13 @@ def run_history(h):
             elif kind == 'set_invalid_strict':
                 setattr(root, op[1], 'x' * 2000)
                 spec.set(op[1].upper(), 'x' * 2000)
+            elif kind == 'children_assign_refused':
+                # root.children = [good, bad]: refused at the second element (finding D32: the first one was left pointing at root)
+                good = Field(op[1], version=v, validation_level=lvl)
+                good.value = op[2]
+                bad = Field(op[1], version=v, validation_level=other_lvl)
+                extra.extend([good, bad])
+                root.children = [good, bad]
             elif kind == 'set_basedt_refused':
                 # a base-datatype object assigned to a child of a complex datatype is refused (finding D30)
                 from hl7apy.v2_5 import ST
